@@ -9,6 +9,7 @@ import (
 	"net"
 	"net/http"
 	"strconv"
+	"strings"
 	"sync"
 	"time"
 
@@ -452,6 +453,49 @@ func c18wsdead(intervalMs, aliveMs int) string {
 	return fmt.Sprintf("returned=%v disc=%d errh=%d ms=%d", returned, disc, errh, el.Milliseconds())
 }
 
+// c18hookfail: Client.Resume on a connection the server confirms, but the application's PostResumeHook fails: Resume
+// returns the error, no session is running - and so no keepalive may be running either, neither now nor next to the
+// keepalive of a later successful Resume on the same client.
+func c18hookfail(iv int) string {
+	script := func() *stubTransport {
+		st := newStub(strings.NewReader("<?xml version='1.0'?><stream:stream xmlns='jabber:client' xmlns:stream='http://etherx.jabber.org/streams' version='1.0' id='s2'>" +
+			"<stream:features><mechanisms xmlns='urn:ietf:params:xml:ns:xmpp-sasl'><mechanism>PLAIN</mechanism></mechanisms></stream:features>" +
+			"<success xmlns='urn:ietf:params:xml:ns:xmpp-sasl'/>" +
+			"<stream:features><bind xmlns='urn:ietf:params:xml:ns:xmpp-bind'/></stream:features>" +
+			"<iq type='result' id='x'><bind xmlns='urn:ietf:params:xml:ns:xmpp-bind'><jid>u@localhost/r</jid></bind></iq>"))
+		stanza.InitStream(st.GetDecoder())
+		return st
+	}
+	cfg := &xmpp.Config{Jid: "u@localhost/r", Credential: xmpp.Password("p"), Insecure: true, KeepaliveInterval: time.Duration(iv) * time.Millisecond}
+	st1 := script()
+	client, err := newStubClient(cfg, xmpp.NewRouter(), nil, st1)
+	if err != nil {
+		return "newclient-failed"
+	}
+	fail := true
+	client.PostResumeHook = func() error {
+		if fail {
+			return errors.New("harness: post-resume hook failed")
+		}
+		return nil
+	}
+	type r struct{ err error }
+	done := make(chan r, 1)
+	go func() { done <- r{client.Resume()} }()
+	var e1 error
+	select {
+	case x := <-done:
+		e1 = x.err
+	case <-time.After(3 * time.Second):
+		return "hang"
+	}
+	time.Sleep(time.Duration(8*iv) * time.Millisecond)
+	st1.mu.Lock()
+	orphan := st1.pings
+	st1.mu.Unlock()
+	return fmt.Sprintf("resumeerr=%v orphanpings=%d", e1 != nil, orphan)
+}
+
 func (c18) Exec(c Case) []string {
 	obs := make([]string, len(c.Ops))
 	var wg sync.WaitGroup
@@ -483,6 +527,15 @@ func (c18) Exec(c Case) []string {
 			go func(i int) {
 				defer wg.Done()
 				obs[i] = tlsKeepalive(iv, tk)
+			}(i)
+			continue
+		}
+		if op[0] == "hookfail" && len(op) == 2 {
+			iv, _ := strconv.Atoi(op[1])
+			wg.Add(1)
+			go func(i int) {
+				defer wg.Done()
+				obs[i] = c18hookfail(iv)
 			}(i)
 			continue
 		}
@@ -565,6 +618,9 @@ func (c18) Generate(rng *rand.Rand, tier string, st *Stats) []Case {
 			ops = append(ops, []string{"xclose", strconv.Itoa(iv), strconv.Itoa([]int{0, iv / 2, iv, 3*iv + 1}[j])})
 			st.Inc("server_closes_stream_real_transport")
 		}
+		// a Resume whose post-resume hook fails leaves no keepalive behind
+		ops = append(ops, []string{"hookfail", strconv.Itoa([]int{4, 7, 12}[b%3])})
+		st.Inc("resume_hook_fails")
 		cases = append(cases, Case{ID: fmt.Sprintf("batch%d", n), Ops: ops})
 		n++
 	}
